@@ -269,7 +269,11 @@ def ring_spec(draw, modes=None, chords=True, thru=True, max_n=5):
         if draw(st.integers(0, 9)) < 2:
             ch.append(["cb"])
         links.append([names[i], "o", ch, names[(i + 1) % n], "i0"])
-    comps = [{"kind": "model", "name": m, "start": 0, "steps": steps[m], "ins": ins[m], "outs": ["o"]} for m in names]
+    # staggered starts (documented: components may start later than the composition): delay adapters clamp to the
+    # *source's* start time, which then differs from the consumer's
+    stag = draw(st.integers(0, 3)) == 0
+    starts = {m: (draw(st.sampled_from([0, 0, 1, 2, 5])) if stag else 0) for m in names}
+    comps = [{"kind": "model", "name": m, "start": starts[m], "steps": steps[m], "ins": ins[m], "outs": ["o"]} for m in names]
     # optional pull-based member: M_i -> T -> M_{i+1}; push-based adapters stay upstream of T (its output is pull-only)
     if thru and draw(st.integers(0, 3)) == 0:
         i = draw(st.integers(0, n - 1))
@@ -318,6 +322,6 @@ def ring_spec(draw, modes=None, chords=True, thru=True, max_n=5):
         "total": total,
         "ring": n,
         "extra": extra,
-        "excluded": [],
+        "excluded": ["info:staggered-starts"] if stag and len(set(starts.values())) > 1 else [],
         "tick_us": draw(TICKS),
     }
